@@ -346,3 +346,309 @@ theorem np_esdtTransfer (env : Env) (c : Call) (ctx : Ctx)
     npx
 
 end Esdt
+
+namespace Esdt
+
+/-! ### ESDTNFTTransfer -/
+
+/-- every token-keyed slot of an account decodes (if at all) to a token carrying a `Value` -/
+def AcctVal (A : Accts) (a : Bytes) : Prop := ∀ s, ValAt A a (esdtKeyPrefix ++ s)
+
+theorem AcctVal.nft {A : Accts} {a : Bytes} (h : AcctVal A a) (tok : Bytes) (n : Nat) :
+    ValAt A a (nftKey (esdtKeyPrefix ++ tok) n) := by
+  have := h (tok ++ beBytes n)
+  simpa [nftKey, List.append_assoc] using this
+
+theorem np_esdtNFTTransferSender (env : Env) (c : Call) (ctx : Ctx) (hlen : 4 ≤ c.args.length)
+    (hpres : present env.nshards env.self c.caller = true)
+    (hS : AcctVal ctx.accts c.caller)
+    (hD : ∀ dst, c.args[3]? = some dst → env.self = shardOf env.nshards dst → AcctVal ctx.accts dst) :
+    NP (esdtNFTTransferSender env c) ctx := by
+  unfold esdtNFTTransferSender
+  simp only [hpres, Bool.not_true, Bool.false_eq_true, if_false]
+  np
+  rename_i tok _ dst hdst _ hneq _ _ nb _ hnz
+  have hn0 : 0 < u64 (beNat nb) := Nat.pos_of_ne_zero (of_decide_eq_false hnz)
+  apply NP.bind_of (np_getNFTOnSender _ _ _ _)
+  apply Post.mono (spec_getNFTOnSender _ _ _ ctx)
+  intro t c1 ⟨h1, hne, hdec, hmd, _⟩
+  have hv : t.value.isSome = true := valAt_of_sender (hS.nft tok _) hne hdec
+  have hmd' : t.md.isSome = true := hmd hn0
+  np
+  apply NP.bind_deref hv; intro v _
+  np
+  apply NP.bind_of (np_saveNFT _ _ _ _ _ rfl)
+  apply Post.mono (spec_saveNFT _ _ _ _ c1)
+  intro _ c2 ⟨_, _, _, _, h2⟩
+  by_cases hx : env.self = shardOf env.nshards dst
+  · simp only [hx, decide_true, if_true, Bool.not_true, Bool.false_eq_true, if_false]
+    np
+    have hne' : dst ≠ c.caller := of_decide_eq_false hneq
+    refine NP.bind_of (np_addNFTToDestination env dst _ _ _ _ _ rfl ?_) ?_
+    · intro cur hcur
+      rename_i hc3
+      rw [hc3, h2, h1, Accts.read_write, if_neg (fun ⟨e, _⟩ => hne' e.symm)] at hcur
+      exact ⟨(hD dst hdst hx).nft tok _ cur hcur, fun _ => hmd'⟩
+    · apply Post.mono (spec_addNFTToDestination env dst _ _ _ _ _)
+      intro t' c4 ⟨_, _, _, _, _, _, _, _, _, ht', _⟩
+      have hmd3 : t'.md.isSome = true := by rw [ht']; exact hmd'
+      repeat' (first | np_step | (apply NP.bind_deref hmd3; intro _ _) | (show NP _ _; split))
+  · simp only [hx, decide_false, Bool.false_eq_true, if_false, Bool.not_false, if_true]
+    repeat' (first | np_step | (apply NP.bind_deref hmd'; intro _ _) | (show NP _ _; split))
+
+end Esdt
+
+namespace Esdt
+
+/-- a protocol-generated NFT payload: decodes (if at all) to a token with `Value` and metadata -/
+def PayloadOK (b : Bytes) : Prop := ∀ t, decToken b = some t → t.value.isSome = true ∧ t.md.isSome = true
+
+theorem np_esdtNFTTransfer (env : Env) (c : Call) (ctx : Ctx)
+    (hreach : c.caller = c.rcv → present env.nshards env.self c.caller = true)
+    (hS : c.caller = c.rcv → AcctVal ctx.accts c.caller)
+    (hD : ∀ dst, c.args[3]? = some dst → c.caller = c.rcv → env.self = shardOf env.nshards dst → AcctVal ctx.accts dst)
+    (hR : c.caller ≠ c.rcv → AcctVal ctx.accts c.rcv)
+    (hP : c.caller ≠ c.rcv → ∀ b, c.args[3]? = some b → PayloadOK b) :
+    NP (esdtNFTTransfer env c) ctx := by
+  unfold esdtNFTTransfer checkBasic
+  np
+  have hlen : 4 ≤ c.args.length := by np_bound
+  by_cases hself : c.caller = c.rcv
+  · simp only [hself, if_true]
+    have := np_esdtNFTTransferSender env c ctx hlen (hreach hself) (hS hself) (fun d hd hx => hD d hd hself hx)
+    simpa [hself] using this
+  · simp only [hself, if_false]
+    npg
+    rename_i tok _ payload hpl
+    apply NP.bind_of (np_unmarshalToken _ _)
+    apply Post.mono (spec_unmarshalToken _ ctx)
+    intro t c1 ⟨h1, hdec⟩
+    obtain ⟨hv, hmd⟩ := hP hself payload hpl t hdec
+    refine NP.bind_any (np_addNFTToDestination env c.rcv t _ _ _ _ hv ?_) ?_
+    · intro cur hcur
+      rw [h1] at hcur
+      exact ⟨(hR hself).nft tok _ cur hcur, fun _ => hmd⟩
+    · intro _ _
+      repeat' (first | np_step | (apply NP.bind_deref hmd; intro _ _) | (show NP _ _; split))
+
+end Esdt
+
+namespace Esdt
+
+/-! ### MultiESDTNFTTransfer: argument-derived counts and indices
+
+The per-item ledger helpers run on intermediate states of the same call.  The loops are proved panic-free relative to any
+state invariant `I` that (a) makes each per-item helper panic-free and (b) is preserved by it; the per-item obligations on a
+concrete well-formed state are `np_addToESDTBalance`, `np_addNFTToDestination`, `np_transferOne`. -/
+
+structure ItemsSafe (env : Env) (c : Call) (I : Accts → Prop) : Prop where
+  one_np : ∀ l dst tok n q v ctx, I ctx.accts → NP (transferOne env c l dst tok n q v) ctx
+  one_inv : ∀ l dst tok n q v ctx, I ctx.accts → Post (transferOne env c l dst tok n q v) ctx (fun _ c' => I c'.accts)
+  dest_np : ∀ t tk mv ctx, I ctx.accts → t.value.isSome = true → t.md.isSome = true →
+    NP (addNFTToDestination env c.rcv t tk mv c.rae) ctx
+  dest_inv : ∀ t tk mv ctx, I ctx.accts → Post (addNFTToDestination env c.rcv t tk mv c.rae) ctx (fun _ c' => I c'.accts)
+  bal_np : ∀ k d ctx, I ctx.accts → NP (addToESDTBalance c.rcv k d c.rae) ctx
+  bal_inv : ∀ k d ctx, I ctx.accts → Post (addToESDTBalance c.rcv k d c.rae) ctx (fun _ c' => I c'.accts)
+
+theorem post_transferOne_value (env : Env) (c : Call) (l : Bool) (dst tok : Bytes) (n q : Nat) (v : Bool) (ctx : Ctx) :
+    Post (transferOne env c l dst tok n q v) ctx (fun t _ => t.value.isSome = true) := by
+  apply Post.mono (transferOne_effect env c l dst tok n q v ctx)
+  intro t' _ ⟨t, _, _, _, _, _, _, _, _, hf, ht⟩
+  cases l
+  · rw [(hf rfl).1]; rfl
+  · obtain ⟨_, _, _, _, _, e, _⟩ := ht rfl; rw [e]; rfl
+
+theorem post_multiSenderLoop (env : Env) (c : Call) (l : Bool) (dst : Bytes) (v : Bool) (I : Accts → Prop)
+    (hI : ItemsSafe env c I) :
+    ∀ n idx ctx, I ctx.accts → Post (multiSenderLoop env c l dst v n idx) ctx
+      (fun r c' => I c'.accts ∧ ∀ p ∈ r.1, p.2.value.isSome = true) := by
+  intro n
+  induction n with
+  | zero => intro idx ctx h; unfold multiSenderLoop; exact Post.pure ⟨h, by simp⟩
+  | succ n ih =>
+    intro idx ctx h
+    unfold multiSenderLoop
+    xsteps
+    apply Post.mono (Post.and (hI.one_inv _ _ _ _ _ _ _ h) (post_transferOne_value _ _ _ _ _ _ _ _ _))
+    intro t c1 ⟨h1, ht⟩
+    xsteps
+    apply Post.mono (ih _ _ h1)
+    intro r c2 ⟨h2, hr⟩
+    obtain ⟨ts, logs⟩ := r
+    apply Post.pure
+    refine ⟨h2, ?_⟩
+    intro p hp
+    simp only [List.mem_cons] at hp
+    rcases hp with rfl | hp
+    · exact ht
+    · exact hr p hp
+
+theorem np_multiSenderLoop (env : Env) (c : Call) (l : Bool) (dst : Bytes) (v : Bool) (I : Accts → Prop)
+    (hI : ItemsSafe env c I) :
+    ∀ n idx ctx, I ctx.accts → idx + 3 * n ≤ c.args.length → NP (multiSenderLoop env c l dst v n idx) ctx := by
+  intro n
+  induction n with
+  | zero => intro idx ctx _ _; unfold multiSenderLoop; np
+  | succ n ih =>
+    intro idx ctx h hb
+    unfold multiSenderLoop
+    npg
+    apply NP.bind_of (hI.one_np _ _ _ _ _ _ _ h)
+    apply Post.mono (hI.one_inv _ _ _ _ _ _ _ h)
+    intro _ c1 h1
+    apply NP.bind_any (ih _ _ h1 (by omega)); intro r _
+    obtain ⟨ts, logs⟩ := r
+    np
+
+theorem np_multiPayloadLoop (env : Env) : ∀ toks g ctx, (∀ p ∈ toks, p.2.value.isSome = true) →
+    NP (multiPayloadLoop env toks g) ctx := by
+  intro toks
+  induction toks with
+  | nil => intro g ctx _; unfold multiPayloadLoop; np
+  | cons p rest ih =>
+    intro g ctx hv
+    obtain ⟨tokenID, t⟩ := p
+    have hrest : ∀ p ∈ rest, p.2.value.isSome = true := fun p hp => hv p (by simp [hp])
+    unfold multiPayloadLoop
+    split
+    · np
+      apply NP.bind_any (ih _ _ hrest); intro r _
+      obtain ⟨a, b⟩ := r
+      np
+    · apply NP.bind_deref (hv (tokenID, t) (by simp)); intro _ _
+      apply NP.bind_any (ih _ _ hrest); intro r _
+      obtain ⟨a, b⟩ := r
+      np
+
+theorem np_multiTransferSender (env : Env) (c : Call) (ctx : Ctx) (I : Accts → Prop) (hI : ItemsSafe env c I)
+    (h0 : I ctx.accts) (hlen : 4 ≤ c.args.length) (hphys : c.args.length < two63)
+    (hpres : present env.nshards env.self c.caller = true) :
+    NP (multiTransferSender env c) ctx := by
+  unfold multiTransferSender
+  simp only [hpres, Bool.not_true, Bool.false_eq_true, if_false]
+  npg
+  rename_i dst _ _ _ _ a1 _ _ hn hmin _
+  have hb : 2 + 3 * u64 (beNat a1) ≤ c.args.length := by
+    have h1 : ¬ (u64 (beNat a1) > c.args.length / 3) := of_decide_eq_false hn
+    have h2 : ¬ (c.args.length < u64 (u64 (u64 (beNat a1) * 3) + 2)) := of_decide_eq_false hmin
+    simp only [u64, two64, two63] at *
+    omega
+  repeat' (first
+    | npg_step
+    | (apply NP.bind_ro (np_loadAcct _) ro_loadAcct; intro _ c1 hc1
+       have h0 : I c1.accts := by rw [hc1]; exact h0)
+    | (apply NP.bind_of (np_multiSenderLoop env c _ dst _ I hI _ _ _ (by assumption) (by omega))
+       apply Post.mono (post_multiSenderLoop env c _ dst _ I hI _ _ _ (by assumption))
+       intro r _ ⟨_, hvals⟩)
+    | (apply NP.bind_any (np_multiPayloadLoop env _ _ _ (by assumption)); intro _ _)
+    | np_step
+    | (show NP _ _; split))
+
+end Esdt
+
+namespace Esdt
+
+theorem np_multiDestLoop (env : Env) (c : Call) (m : Nat) (I : Accts → Prop) (hI : ItemsSafe env c I)
+    (hP : ∀ b ∈ c.args, PayloadOK b) :
+    ∀ n idx ctx, I ctx.accts → idx + 3 * n ≤ c.args.length → NP (multiDestLoop env c m n idx) ctx := by
+  intro n
+  induction n with
+  | zero => intro idx ctx _ _; unfold multiDestLoop; np
+  | succ n ih =>
+    intro idx ctx h hb
+    unfold multiDestLoop
+    npg
+    rename_i a2 ha2
+    split
+    · apply NP.bind_of (np_unmarshalToken _ _)
+      apply Post.mono (spec_unmarshalToken _ ctx)
+      intro t c1 ⟨h1, hdec⟩
+      obtain ⟨hv, hmd⟩ := hP a2 (List.mem_of_getElem? ha2) t hdec
+      have h1' : I c1.accts := by rw [h1]; exact h
+      apply NP.bind_of (hI.dest_np _ _ _ _ h1' hv hmd)
+      apply Post.mono (hI.dest_inv _ _ _ _ h1')
+      intro _ c2 h2
+      npg
+      apply NP.bind_any (ih _ _ h2 (by omega)); intro _ _
+      np
+    · apply NP.bind_ro (np_verifyPayableIf _ _ _ _) (ro_verifyPayableIf _ _ _); intro _ c1 h1
+      have h1' : I c1.accts := by rw [h1]; exact h
+      apply NP.bind_of (hI.bal_np _ _ _ h1')
+      apply Post.mono (hI.bal_inv _ _ _ h1')
+      intro _ c2 h2
+      npg
+      apply NP.bind_any (ih _ _ h2 (by omega)); intro _ _
+      np
+
+/-- MultiESDTNFTTransfer, relative to a state invariant for the per-item helpers: no index, count or allocation panic -/
+theorem np_multiTransfer (env : Env) (c : Call) (ctx : Ctx) (I : Accts → Prop) (hI : ItemsSafe env c I)
+    (h0 : I ctx.accts) (hphys : c.args.length < two63)
+    (hreach : c.caller = c.rcv → present env.nshards env.self c.caller = true)
+    (hP : c.caller ≠ c.rcv → ∀ b ∈ c.args, PayloadOK b) :
+    NP (multiTransfer env c) ctx := by
+  unfold multiTransfer checkBasic
+  npg
+  have hlen : 4 ≤ c.args.length := by np_bound
+  by_cases hself : c.caller = c.rcv
+  · simp only [hself, if_true]
+    have := np_multiTransferSender env c ctx I hI h0 hlen hphys (hreach hself)
+    simpa [hself] using this
+  · simp only [hself, if_false]
+    npg
+    rename_i a0 _ _ hn hmin
+    have hb : 1 + 3 * u64 (beNat a0) ≤ c.args.length := by
+      have h1 : ¬ (u64 (beNat a0) > c.args.length / 3) := of_decide_eq_false hn
+      have h2 : ¬ (c.args.length < u64 (u64 (u64 (beNat a0) * 3) + 1)) := of_decide_eq_false hmin
+      simp only [u64, two64, two63] at *
+      omega
+    apply NP.bind_any (np_multiDestLoop env c _ I hI (hP hself) _ _ _ h0 (by omega)); intro _ _
+    repeat' (first | np_step | (show NP _ _; split))
+
+/-- the wrapped-count guard (F4 class): a token count above a third of the argument count is refused before any loop,
+    slice or index depends on it — sender side -/
+theorem multiTransferSender_count_guard (env : Env) (c : Call) (ctx ctx' : Ctx) (out : VMOutput) (a1 : Bytes)
+    (h1 : c.args[1]? = some a1) (h : multiTransferSender env c ctx = .ok (out, ctx')) :
+    u64 (beNat a1) ≤ c.args.length / 3 ∧ u64 (beNat a1) ≠ 0 := by
+  have hp : Post (multiTransferSender env c) ctx (fun _ _ => u64 (beNat a1) ≤ c.args.length / 3 ∧ u64 (beNat a1) ≠ 0) := by
+    unfold multiTransferSender
+    xsteps
+    rename_i a1' h1' hz hn _ _
+    rw [h1] at h1'; cases h1'
+    apply Post.intro
+    intro _ _
+    exact ⟨by have := of_decide_eq_false hn; omega, of_decide_eq_false hz⟩
+  exact hp.elim h
+
+end Esdt
+
+namespace Esdt
+
+/-- one sender-side item of a multi transfer on a concrete state: panic-free when the two accounts' token slots carry
+    values and the destination's slot under the item's key is of the item's kind (metadata only where the item has it) -/
+theorem np_transferOne (env : Env) (c : Call) (l : Bool) (dst tok : Bytes) (n q : Nat) (v : Bool) (ctx : Ctx)
+    (hS : AcctVal ctx.accts c.caller) (hne : dst ≠ c.caller)
+    (hD : l = true → AcctVal ctx.accts dst)
+    (hK : l = true → ∀ t cur, decToken (ctx.accts.read c.caller (nftKey (esdtKeyPrefix ++ tok) n)) = some t →
+      tokenOf (ctx.accts.read dst (nftKey (esdtKeyPrefix ++ tok) (mdNonce t))) = some cur →
+      cur.md.isSome = true → t.md.isSome = true) :
+    NP (transferOne env c l dst tok n q v) ctx := by
+  unfold transferOne
+  npg
+  apply NP.bind_of (np_getNFTOnSender _ _ _ _)
+  apply Post.mono (spec_getNFTOnSender _ _ _ ctx)
+  intro t c1 ⟨h1, hne1, hdec, _, _⟩
+  have hv : t.value.isSome = true := valAt_of_sender (hS.nft tok _) hne1 hdec
+  apply NP.bind_deref hv; intro x _
+  npg
+  apply NP.bind_of (np_saveNFT _ _ _ _ _ rfl)
+  apply Post.mono (spec_saveNFT _ _ _ _ c1)
+  intro _ c2 ⟨_, _, _, _, h2⟩
+  cases l
+  · simp only [Bool.false_eq_true, if_false]; np
+  · simp only [if_true]
+    refine np_addNFTToDestination env dst _ _ _ _ _ rfl ?_
+    intro cur hcur
+    rw [h2, h1, Accts.read_write, if_neg (fun ⟨e, _⟩ => hne e.symm)] at hcur
+    exact ⟨(hD rfl).nft tok _ cur hcur, fun hc => hK rfl t cur hdec hcur hc⟩
+
+end Esdt
